@@ -23,11 +23,25 @@ CheckR(n, e) ==
     Require(<< e.mc[i][1], e.mc[i][2] >> = ReadType(v), n, "readvalue",
             [v |-> v, got |-> e.mc[i], want |-> ReadType(v)])
 
+\* beyond C19 (same complete-domain style): comprehension ranges, class names and their panic domain,
+\* totality of the String methods
+CheckQ(n, e) ==
+  \A i \in 1..16 :
+    Require(e.req[i] = ComprehensionRequired(e.base + i - 1) /\ e.opt[i] = ComprehensionOptional(e.base + i - 1), n,
+            "comprehension-range", [type |-> e.base + i - 1])
+CheckC(n, e) ==
+  IF e.class \in Classes THEN Require(~e.panics /\ e.name = ClassName(e.class), n, "class-name", [class |-> e.class, name |-> e.name])
+  ELSE Require(e.panics, n, "class-string-domain", [class |-> e.class])
+CheckN(n, e) == \A i \in 1..Len(e.ok) : Require(e.ok[i], n, "string-not-total", [value |-> e.base + i - 1])
+
 Next ==
   /\ l <= NLines
   /\ LET e == Trace[l] IN
        /\ CASE e.k = "V" -> CheckV(l, e)
             [] e.k = "R" -> CheckR(l, e)
+            [] e.k = "Q" -> CheckQ(l, e)
+            [] e.k = "C" -> CheckC(l, e)
+            [] e.k = "N" -> CheckN(l, e)
             [] OTHER -> Reject(l, "unknown-line", e.k)
        /\ seenV' = seenV + (IF e.k = "V" THEN 4 ELSE 0)
        /\ seenR' = seenR + (IF e.k = "R" THEN Len(e.mc) ELSE 0)
